@@ -53,21 +53,25 @@ def one(run, impl, model, wd, name, crc, ops, ib):
     d = os.path.join(wd, name)
     shutil.rmtree(d, ignore_errors=True)
     os.makedirs(d)
-    rc, out, err = vlib.run_lines(impl, "run %s %d 1 -1 2 %s\n" % (d, crc, " ".join(ops)), timeout=60)
+    rc, out, err = vlib.run_lines(impl, "run %s %d 1 -1 6 %s\n" % (d, crc, " ".join(ops)), timeout=60)
     if rc == 124:
         return {"ops": ops, "crc": crc, "run": "timeout", "t2": "harness timed out (writer blocked inside the backup?)"}, True, "", ""
     tr = W.parse_trace(os.path.join(d, "trace"))
     line = out[0] if out else "<none>"
     res = {"ops": ops, "crc": crc, "run": line}
     states = ref_states(ops)
+    # did a writer operation ask for a larger file while the backup was copying the main file?  (listener tap:
+    # an _onresize call between the begin of the backup op and the end of the operations injected into it)
+    starts = {i: n for (_, i, n) in tr["marks"]}
+    a = starts.get(ib, 0)
+    later = [starts[i] for i in starts if i > ib + 6]
+    bnd = min(later) if later else len(tr["lsn"])
+    grew = any(f[0] == "R" for _, f in tr["lsn"][a:bnd])
+    res["resize_during_main_copy"] = grew
+    gcl = "growth-during-main-copy"
     if line != "run exit=0":
-        # which operation was in flight
-        infl = [i for i in sorted(tr["ops"]) if tr["ops"][i].get("rc") is None]
-        inside = [i for i in infl if i > ib]
-        if inside and ib in infl and ops[inside[0]][0] == "p":
-            return res, False, ("the process died (%s) inside operation %d (%s) issued while iwkv_online_backup was copying the main "
-                                "file" % (line, inside[0], ops[inside[0]][:40])), "growth-during-main-copy"
-        return res, False, "the process running backup + writer died: %s" % line, "crash"
+        return res, False, ("the process running backup + writer died: %s%s" % (
+            line, " (a writer operation needed a larger file while the main file was being copied)" if grew else "")), gcl if grew else "crash"
     ob = tr["ops"].get(ib, {})
     if ob.get("rc") != "0":
         return res, False, "iwkv_online_backup failed with %s" % ob.get("rc"), "backup-error"
@@ -102,22 +106,22 @@ def one(run, impl, model, wd, name, crc, ops, ib):
     res["t2"] = t2
     # oracle
     if fi.get("exit") != "0":
-        return res, False, "opening the backup image died: %s" % fi.get("exit"), "image-open"
+        return res, False, "opening the backup image died: %s" % fi.get("exit"), gcl if grew else "image-open"
     if fi.get("rc") != "0":
-        return res, False, "the backup image does not open: %s" % fi.get("rc"), "image-open"
+        return res, False, "the backup image does not open: %s" % fi.get("rc"), gcl if grew else "image-open"
     got, probs = W.canon_dump(fi.get("dump", ""))
     lo, hi = ib, ib + 1 + inj
     if probs:
-        return res, False, "image opens but its scan is malformed: %s" % ",".join(probs), "image-torn"
+        return res, False, "image opens but its scan is malformed: %s" % ",".join(probs), gcl if grew else "image-torn"
     ks = [k for k in range(len(states)) if states[k] == got]
     if not any(lo <= k <= hi for k in ks):
         if ks:
             return res, False, "image holds the state after %d operations; the call started after %d and returned after %d" % (ks[0], lo, hi), "image-wrong-instant"
-        return res, False, "image holds a state that is not the state after any prefix of the history (call spans prefixes %d..%d)" % (lo, hi), "image-torn"
+        return res, False, "image holds a state that is not the state after any prefix of the history (call spans prefixes %d..%d)" % (lo, hi), gcl if grew else "image-torn"
     fl = W.fields(live_line)
     gotl, probsl = W.canon_dump(fl.get("dump", ""))
     if fl.get("exit") != "0" or fl.get("rc") != "0" or probsl or gotl != states[len(ops)]:
-        return res, False, "the live store is not in the state after the whole history once the backup is done: %s" % live_line[:200], "live-affected"
+        return res, False, "the live store is not in the state after the whole history once the backup is done: %s" % live_line[:200], gcl if grew else "live-affected"
     return res, True, "", ""
 
 
